@@ -1010,6 +1010,29 @@ static void do_thread_alloc_exit(State& S, std::vector<vf::Blk*>* group = nullpt
   check_errors(S, "thread exit");
 }
 
+// small aligned blocks with offsets, on a heap that already has pages of the size class (the fast path that takes a block straight from the page's free list
+// when it happens to be aligned): sizes up to 1 KiB, 16 <= alignment <= size, offsets that are multiples of 8 (debug build: of 16) in (0, alignment),
+// several blocks per combination so that free-list heads at many residues are met
+static void do_small_aligned_pattern(State& S) {
+  std::vector<vf::Blk*> got;
+  for (int rep = 0; rep < 12; rep++) {
+    const size_t n = 24 + 8 * (size_t)below(S, 126);                       // 24 .. 1024
+    size_t a = 16; while (a * 2 <= n && chance(S, 2, 3)) a *= 2;           // 16 .. n
+    for (int w = 0; w < 3; w++) { vf::Blk* b = do_alloc(S, EP_malloc, n); if (b) got.push_back(b); }   // the class has a page with a free list
+    for (int k = 0; k < 10; k++) {
+      const size_t step = (S.cfg.debug ? 16 : 8);
+      const size_t o = step * (1 + (size_t)below(S, a / step > 1 ? a / step - 1 : 1));
+      const bool z = chance(S, 1, 3);
+      vf_cur_what = (z ? "zalloc_aligned_at" : "malloc_aligned_at");
+      void* p = (z ? mi_zalloc_aligned_at(n, a, o) : mi_malloc_aligned_at(n, a, o));
+      if (p == nullptr) continue;
+      vf::Blk* b = accept_block(S, p, n, S.cur_default, a, o, z, z ? EP_zalloc_aligned_at : EP_malloc_aligned_at);
+      if (b) got.push_back(b);
+    }
+  }
+  for (vf::Blk* b : got) if (chance(S, 3, 4)) do_free(S, b);
+}
+
 // several threads terminate one after the other, each leaving live blocks behind (several abandoned segments at the same time); then the blocks of one thread
 // after the other are freed by this thread -- starting with a thread in the middle of the abandonment order -- with a full walk comparison after every group
 // (reclaim-on-free takes that segment out of the middle of the abandoned set; the others must still be reported completely)
@@ -1251,6 +1274,7 @@ void history_step(State& S) {
   if (walkprof && S.cfg.threads && S.cfg.abandon_ok && (S.op_index % 400) == 200) do_abandoned_pattern(S);
   if (S.cfg.profile == "heaps" && S.cfg.threads && !S.cfg.abandon_ok && (S.op_index % 500) == 250) do_tagged_destroy_pattern(S);
   if (S.cfg.threads && S.cfg.abandon_ok && (S.op_index % 600) == 300) do_force_abandon_pattern(S);
+  if (S.cfg.profile == "aligned" && (S.op_index % 250) == 125) do_small_aligned_pattern(S);
   if (S.cfg.trace >= 2 && S.foreign_live == 0) check_conservation(S, "paranoid", "C12");
   if ((S.op_index & 255) == 255) check_conservation(S, "periodic", walkprof ? "C12" : "C12,C05,C10");
   if ((S.op_index & 511) == 511) { vf_cur_what = "verify_all"; S.sm.verify_all("periodic verification"); }
